@@ -508,12 +508,11 @@ impl<'a> LuaLexer<'a> {
 
     fn lex_new_line(&mut self) -> LuaTokenKind {
         match self.reader.current_char() {
-            // support \n or \n\r
+            // `\n` ends a line on its own: a following `\r` starts the next line terminator
+            // (`\r` or `\r\n`), as in the LSP line rules `LineIndex` follows, so that no token
+            // boundary falls between the two bytes of a `\r\n`
             '\n' => {
                 self.reader.bump();
-                if self.reader.current_char() == '\r' {
-                    self.reader.bump();
-                }
             }
             // support \r or \r\n
             '\r' => {
